@@ -1,5 +1,7 @@
 import ColaVerif.DriverLib
 import ColaVerif.Model.DiagTrace
+import ColaVerif.Model.DiagTraceDtype
+import ColaVerif.Model.DiagTraceSel
 
 /-!
 Line-protocol driver of C08 (`cola.linalg.diag`, `cola.linalg.trace`).
@@ -7,13 +9,24 @@ Case: `{"id":…, "call":"diag"|"trace"|"exactdiag", "op":…, "k":int, "alg":"o
 (`bs` = the constant of `bs = min(100, n)`, default 100; `exactdiag` runs the probing loop
 directly, whatever the class of the operator).
 Answer: code model (`{"ok":[…]}` / `{"err":class}`), specification (the diagonal / trace of
-`den`), `wf`, the named clauses the case violates, a magnitude bound.
+`den`), `wf`, the named clauses the case violates, a magnitude bound;
+result dtype: `cdt` = the code model (`Op.diagDt` / `Op.traceDt` / `Op.exactDiagDt`), `sdt` = the
+specification (`Op.dtypeSpec`, promotion of the leaf dtypes), `dtclauses` = the dtype clauses violated;
+rule selection: `drules` / `trules` = the method the model applies for an algorithm object of class
+Auto, Exact, Hutch, HutchPP (in this order).
+`{"call":"rules"}` (no operator) answers with the model's rule tables; `"call":"dtype"` items answer
+with `cdt` only (`"of":"diag"|"trace"`, no values are computed).
 Run with `lake env lean --run DriverC08.lean < cases.jsonl`.
 -/
 
 open Lean (Json)
 
 def showList (l : List GRat) : String := "[" ++ ",".intercalate (l.map showZ) ++ "]"
+
+def showDt (d : Option DType) : String :=
+  match d with
+  | some dt => "\"" ++ dt.toString ++ "\""
+  | none => "\"none\""
 
 def showRes1 (r : Except String (List GRat)) : String :=
   match r with
@@ -38,8 +51,13 @@ def answerItem (A : Op GRat) (D : Option (MatV GRat)) (j : Json) : E String := d
     | some D => ",\"spec\":" ++ showList (Op.diagK D.f A.rows k)
     | none => ""
   match call with
-  | "diag" => pure ("{\"code\":" ++ showRes1 (Op.diagCode bs alg A k) ++ specD ++ "}")
-  | "exactdiag" => pure ("{\"code\":" ++ showRes1 (.ok (Op.exactDiag bs A k)) ++ specD ++ "}")
+  | "diag" => pure ("{\"code\":" ++ showRes1 (Op.diagCode bs alg A k) ++ specD ++ ",\"cdt\":" ++ showDt (Op.diagDt A k) ++ "}")
+  | "exactdiag" => pure ("{\"code\":" ++ showRes1 (.ok (Op.exactDiag bs A k)) ++ specD ++ ",\"cdt\":" ++ showDt (Op.exactDiagDt A k) ++ "}")
+  | "dtype" =>
+      let ofS := match j.getObjVal? "of" with
+        | .ok (.str s) => s
+        | _ => "diag"
+      pure ("{\"cdt\":" ++ showDt (if ofS == "trace" then Op.traceDt A else Op.diagDt A k) ++ "}")
   | "trace" =>
       let code := match Op.traceCode bs alg A with
         | .ok t => "{\"ok\":" ++ showZ t ++ "}"
@@ -47,7 +65,7 @@ def answerItem (A : Op GRat) (D : Option (MatV GRat)) (j : Json) : E String := d
       let specT : String := match D with
         | some D => ",\"spec\":" ++ showZ (Op.traceSpec D.f A.rows)
         | none => ""
-      pure ("{\"code\":" ++ code ++ specT ++ "}")
+      pure ("{\"code\":" ++ code ++ specT ++ ",\"cdt\":" ++ showDt (Op.traceDt A) ++ "}")
   | c => throw s!"unknown call {c}"
 
 /-- a line is either one observation (`"call"` ≠ `"batch"`; answer has `code`, `spec` at top level)
@@ -55,14 +73,18 @@ or a batch of observations on ONE operator (`"call":"batch","items":[…]`; answ
 def handle (j : Json) : E String := do
   let id := (j.getObjVal? "id").toOption.getD .null
   let call ← jStr ((j.getObjVal? "call").toOption.getD .null)
+  if call == "rules" then
+    return s!"\{\"id\":{id.compress},\"diag\":{showStrs Op.diagRuleTable},\"trace\":{showStrs Op.traceRuleTable}}"
   let A ← jOp ((j.getObjVal? "op").toOption.getD .null)
   let cl := A.clauses
+  let algs : List Op.AlgK := [.auto, .exact, .hutch, .hutchpp]
+  let dtcl : List String := if A.ruleZeroMult then ["bdiag-zero-multiplicity"] else []
   let sq := A.rows == A.cols
   -- "nospec": only the code model is evaluated (large operators: `den` of a product costs n⁴)
   let nospec := match j.getObjVal? "nospec" with
     | .ok (.bool b) => b
     | _ => false
-  let pre0 := s!"\"id\":{id.compress},\"rows\":{A.rows},\"cols\":{A.cols},\"dtype\":\"{A.dtype.toString}\",\"wf\":{A.wf},\"square\":{sq},\"clauses\":{showStrs cl},\"cls\":\"{A.className}\",\"drule\":\"{A.diagRuleClass}\",\"trule\":\"{A.traceRuleClass}\""
+  let pre0 := s!"\"id\":{id.compress},\"rows\":{A.rows},\"cols\":{A.cols},\"dtype\":\"{A.dtype.toString}\",\"wf\":{A.wf},\"square\":{sq},\"clauses\":{showStrs cl},\"cls\":\"{A.className}\",\"drule\":\"{A.diagRuleClass}\",\"trule\":\"{A.traceRuleClass}\",\"sdt\":\"{A.dtypeSpec.toString}\",\"dtclauses\":{showStrs dtcl},\"drules\":{showStrs (algs.map (fun a => Op.diagRuleSig a A))},\"trules\":{showStrs (algs.map (fun a => Op.traceRuleSig a A))}"
   let D : Option (MatV GRat) := if nospec then none else some A.den
   let pre := if nospec then pre0 else
     let absD := A.absOp.den
